@@ -30,9 +30,15 @@ FLAG_CLASS = {
     "attr_after_empty_text": "K-C01-3",
     "ns_in_rtf": "K-C01-4",
     "global_rtf_built_in_text_only_context": "K-C01-5",
+    "local_binding_read_inside_attribute_set": "K-C01-6",
     "ns_attr_copied_alone": "C14/KN9",   # recorded under property C14, not re-filed here
     "ns_attr_replaced": "C14/K17",      # recorded under property C14, not re-filed here
 }
+# classes of findings reported but possibly not yet listed in KNOWN_FINDINGS.txt: while unlisted (and unrepaired)
+# their programs are left out of the streams (the class guard of the generators); once listed they are run and
+# reported as KNOWN-FINDING like the others
+PENDING = {"K-C01-6"}
+
 # a class stops excusing a disagreement as soon as the source has the repair (facts of translator/gen_xslt.py),
 # whether or not the finding is still listed
 REPAIR_FACTS = {
@@ -41,6 +47,7 @@ REPAIR_FACTS = {
     "attr_after_empty_text": ("copy_of_skips_empty_string", "value_of_dot_skips_empty_string"),
     "global_rtf_built_in_text_only_context": ("lazy_global_resets_copy_text_nodes_only",),
     "#with-param-name-equals-global-name": ("params_reset_when_template_frame_popped",),
+    "local_binding_read_inside_attribute_set": ("attribute_set_hides_locals_by_context_marker",),
 }
 FOREIGN = {"C14/KN9": "KN9 (property C14): a copied attribute node in a namespace keeps its prefix and nothing declares it on the new parent",
            "C14/K17": "K17 (property C14): two attributes with the same expanded name in a namespace are not recognised as duplicates (replacement is decided on the qualified name string)"}
@@ -112,8 +119,8 @@ def replay_text(kind, what, sheet, doc, extra=""):
 
 
 def load_replay(path):
-    text = "".join(l for l in open(path, encoding="utf-8") if not l.startswith("#"))
-    return ast.literal_eval(text.strip())
+    lines = [l for l in open(path, encoding="utf-8") if l.startswith("{")]
+    return ast.literal_eval(lines[-1].strip())
 
 
 def tree_of_model(s):
@@ -247,6 +254,12 @@ class Runner:
         fs = REPAIR_FACTS.get(flag)
         return bool(fs) and all(self.facts.get(f) for f in fs)
 
+    def left_out(self, c):
+        for f, k in FLAG_CLASS.items():
+            if c["flags"].get(f) and k in PENDING and k not in self.listed and not self.repaired(f):
+                return k
+        return None
+
     def known_classes(self, c):
         """classes of LISTED known findings the program falls in (a class whose finding has been repaired and
         removed from the list no longer excuses a disagreement)"""
@@ -358,7 +371,8 @@ class Runner:
                 self.n_ev += 1
                 ctx.cov["traces_validated_against_impl"] += 1
                 if pred != got:
-                    self.corr_ev.append({"id": c["id"], "model": xsltref.show(pred)[:300], "library": xsltref.show(got)[:300], "case": c})
+                    self.corr_ev.append({"id": c["id"], "model": xsltref.show(pred)[:300].replace("\n", " | "),
+                                         "library": xsltref.show(got)[:300].replace("\n", " | "), "case": c})
                 elif c["flags"].get("attr_after_empty_text"):
                     ctx.count("ev:model-follows-library-on-empty-text")
 
@@ -385,7 +399,9 @@ def corpus_cases(runner):
         except Exception:
             continue
         c = runner.prepare("corpus_" + os.path.basename(p)[:-4], d.get("kind", "main"), d["sheet"], d["doc"], expect=d.get("expect"))
-        if c:
+        if c and runner.left_out(c):
+            runner.ctx.count("corpus:left-out(class %s reported, not listed yet)" % runner.left_out(c))
+        elif c:
             out.append(c)
     return out
 
@@ -447,7 +463,9 @@ def run(ctx):
         for i in range(n_main):
             sheet, doc = xsltgen.gen_case(ctx.rng)
             c = runner.prepare("%sm%d" % (tag, i), "main", sheet, doc)
-            if c:
+            if c and runner.left_out(c):
+                ctx.count("generator:left-out(class %s reported, not listed yet)" % runner.left_out(c))
+            elif c:
                 out.append(c)
         for i in range(n_vars):
             sheet, doc = xsltgen.gen_vars_case(ctx.rng)
